@@ -144,8 +144,7 @@ func (n *Nat) EuclideanDivVarTime(remainder, numerator, denominator *Nat) ct.Boo
 	qCap := max(0, numerator.AnnouncedLen()-dd.BitLen()+2)
 	var qq saferith.Nat
 	qq.Div(nn, dd, qCap)
-	((*saferith.Nat)(n)).SetNat(&qq)
-	((*saferith.Nat)(n)).Resize(min(numerator.AnnouncedLen(), qCap))
+	qq.Resize(min(numerator.AnnouncedLen(), qCap))
 	if remainder != nil {
 		var rr saferith.Nat
 		rr.Mul((*saferith.Nat)(denominator), &qq, -1)
@@ -153,6 +152,8 @@ func (n *Nat) EuclideanDivVarTime(remainder, numerator, denominator *Nat) ct.Boo
 		rr.Resize(dd.BitLen())
 		((*saferith.Nat)(remainder)).SetNat(&rr)
 	}
+	// n may alias the numerator or the denominator: write it only after both have been read.
+	((*saferith.Nat)(n)).SetNat(&qq)
 
 	return ct.True
 }
